@@ -277,7 +277,8 @@ class load(DataStreamProcessor):
             if self.extract_missing_values:
                 it = self.missing_values_extractor(it)
             it = self.caster(descriptor, it)
-            if self.strip:
+            if self.strip and self.load_dp is None and not isinstance(self.load_source, tuple):
+                # stripping is for raw sources: a data package's values are already what they should be
                 it = self.stripper(it)
             if self.limit_rows is not None:
                 it = self.limiter(it)
